@@ -414,7 +414,20 @@ func runRns(seed int64, histories, steps int, out *Emitter) {
 				panic(err)
 			}
 		}
+		qr := rand.New(rand.NewSource(seed*7919 + int64(hi) + 29))
 		for i := 0; i < steps; i++ {
+			if restartsOn && qr.Intn(150) == 0 {
+				// the network restarts from its own exported genesis (and runs its first block)
+				pre := c.rnsAbs(g.tracked)
+				e, p := c.Restart(6 * time.Second)
+				if e != "" || p != nil {
+					out.Emit(map[string]interface{}{"mod": "panic", "where": "restart", "hist": hi, "i": i, "h": c.H, "panic": fmt.Sprint(e, p)})
+					break
+				}
+				post := c.rnsAbs(g.tracked)
+				out.Emit(map[string]interface{}{"mod": "rns", "hist": hi, "i": i, "h": c.H, "pre": pre, "op": "restart", "ok": true, "post": post})
+				out.Count("rns.restart", true)
+			}
 			if r.Intn(6) == 0 {
 				if p := c.NextBlock(6 * time.Second); p != nil {
 					out.Emit(map[string]interface{}{"mod": "panic", "where": "block", "h": c.H, "panic": fmt.Sprint(p)})
